@@ -48,6 +48,15 @@ theorem C05_files (cs : List (Name × Node)) (pat : Pattern) (hp : pat ≠ []) (
       (p, false) ∈ entries (.dir cs) ∧ «matches» pat p false = true ∧ hidden p = false :=
   C05_exact cs pat hp (p, false)
 
+/-- **Only the matching, non-hidden entries matter.**  Two trees that agree on the entries that match the pattern and are not
+    hidden have the same expansion (as a set): creating, deleting or renaming files the glob does not denote — hidden ones,
+    ones with another extension, ones elsewhere — never changes what the glob denotes. -/
+theorem C05_only_matches_matter (cs cs' : List (Name × Node)) (pat : Pattern) (hp : pat ≠ [])
+    (h : ∀ v : Visit, «matches» pat v.1 v.2 = true → hidden v.1 = false → (v ∈ entries (.dir cs) ↔ v ∈ entries (.dir cs')))
+    (v : Visit) : v ∈ expandGlob (.dir cs) pat ↔ v ∈ expandGlob (.dir cs') pat := by
+  rw [C05_exact cs pat hp v, C05_exact cs' pat hp v]
+  exact ⟨fun ⟨a, b, c⟩ => ⟨(h v b c).1 a, b, c⟩, fun ⟨a, b, c⟩ => ⟨(h v b c).2 a, b, c⟩⟩
+
 /-- `SpokFile.expandGlobs` for one pattern: `hasGlob` treats an empty cached list as "not expanded yet" -/
 def expandGlobsStep (t : Node) (pat : Pattern) (cached : List Visit) : List Visit :=
   if cached.isEmpty then expandGlob t pat else cached
